@@ -939,6 +939,8 @@ def specs(ctx):
                 scaled = custom and min(kw["PSF"]) > 0 and k % 2 == 0
                 kw["phantom"] = [rng.randint(1, 5) for _ in range(n)] if scaled or (custom and k % 5) else (
                     ivec(rng, n) if k % 3 else rng.choice(["sinc", "gauss", "square", "hat", "bumps", "pc", "skyscraper", "vonmises", "derivgauss"]))
+                if isinstance(kw["phantom"], str) and n < 2:
+                    kw["phantom"] = ivec(rng, n)     # derivGauss at dim 1 is 0/0
                 if isinstance(kw["phantom"], str) and kw["phantom"] in ("square", "hat"):
                     if n < 4 or (kw["phantom"] == "hat" and n < 6):
                         kw["phantom"] = ivec(rng, n)
